@@ -105,13 +105,14 @@ def task_shape(nblocks, nvars, por, perm, seq, timing, reset, cycles=2, toughrea
     np_ = ld.mulgrids.np
     failures, samples, distinct = [], [], set()
     shape = dict(nblocks=nblocks, nvars=nvars, por=por, perm=perm, seq=seq, timing=timing, reset=reset, toughreact=toughreact)
-    tag = ('R.' if (toughreact and not perm) else '') + 'b%d.v%d.%s%s%s.%s%s' % (nblocks, nvars, 'P' if por else 'p', 'K' if perm else 'k', 'S' if seq else 's',
+    tag = ('R.' if (toughreact and not (any(perm) if isinstance(perm, (list, tuple)) else perm)) else '') + 'b%d.v%d.%s%s%s.%s%s' % (nblocks, nvars, 'P' if por else 'p', ('K' if perm else 'k') if not isinstance(perm, (list, tuple)) else 'K' + ''.join('1' if x else '0' for x in perm), 'S' if seq else 's',
                                    'T' if timing else 't', 'R' if reset else 'r')
 
     def h(c):
         fs.files.clear()
         inc = T.t2incon()
-        tr_flavour = perm if toughreact is None else toughreact
+        anyperm = any(perm) if isinstance(perm, (list, tuple)) else perm
+        tr_flavour = anyperm if toughreact is None else toughreact
         if tr_flavour: inc.simulator = 'TOUGHREACT'
         names, data = [], []
         for b in range(nblocks):
@@ -121,7 +122,8 @@ def task_shape(nblocks, nvars, por, perm, seq, timing, reset, cycles=2, toughrea
             names.append(nm)
             vs = [fit_real(c, 'x%d_%d' % (b, i), 'e', 20, 13) for i in range(nvars)]
             po = fit_real(c, 'por%d' % b, 'e', 15, 9) if por else None
-            ks = np_.array([fit_real(c, 'k%d_%d' % (b, i), 'e', 15, 9) for i in range(3)]) if perm else None
+            has_k = perm[b] if isinstance(perm, (list, tuple)) else perm
+            ks = np_.array([fit_real(c, 'k%d_%d' % (b, i), 'e', 15, 9) for i in range(3)]) if has_k else None
             ns = c.int('nseq%d' % b, 0, 99999) if seq else None
             na = c.int('nadd%d' % b, 0, 99999) if seq else None
             data.append((vs, po, ks, ns, na))
@@ -192,7 +194,7 @@ def task_shape(nblocks, nvars, por, perm, seq, timing, reset, cycles=2, toughrea
         ob(inc2.num_blocks == nblocks, 'count: same number of blocks', None)
         if inc2.num_blocks != nblocks: return 'count-mismatch'
         r = ob(inc2.simulator == inc.simulator, 'flavour: same simulator flavour', None)
-        if r == 'sat' and tr_flavour and not perm:
+        if r == 'sat' and tr_flavour and not anyperm:
             failures[-1]['key'] = 'flavour/toughreact-without-permeability'
             failures[-1]['what'] = 'a TOUGHREACT-flavoured set whose blocks have no permeabilities is written without them and read back as TOUGH2 (the reader recognises the flavour only by the permeability fields); with timing kept the 6d/6d/3d timing record is then parsed with the 5d/5d/5d layout'
         for b in range(nblocks):
@@ -211,7 +213,7 @@ def task_shape(nblocks, nvars, por, perm, seq, timing, reset, cycles=2, toughrea
                     ob(f, 'variable: block %d variable %d equals the 13 printed decimals' % (b, i), None)
             if por: ob(isinstance(bi.porosity, SReal) and bi.porosity.e == strs.rounded_value('e', 9, po.e), 'porosity: block %d' % b, None)
             else: ob(bi.porosity is None, 'porosity: absent stays absent, block %d' % b, None)
-            if perm:
+            if ks is not None:
                 okp = bi.permeability is not None and len(bi.permeability) == 3
                 ob(okp, 'permeability: present, block %d' % b, None)
                 if okp:
@@ -285,6 +287,8 @@ def shapes(tier):
             dict(nblocks=2, nvars=3, por=False, perm=False, seq=False, timing=False, reset=False, cycles=3),
             dict(nblocks=2, nvars=8, por=True, perm=True, seq=False, timing=True, reset=False),
             dict(nblocks=1, nvars=2, por=True, perm=False, seq=True, timing=False, reset=True, toughreact=True),
+            # a TOUGHREACT set in which only some blocks carry permeabilities (the last one does not)
+            dict(nblocks=2, nvars=2, por=True, perm=[True, False], seq=False, timing=True, reset=False),
         ]
         return combos
     for nb in (0, 1, 2, 3):
